@@ -768,6 +768,11 @@ class ParallelProcess(Process):
                 'Trying to retrieve command result, but no command is '
                 'pending.')
         self._pending_command = None
+        if self._ended:
+            # The worker has exited. Hand out the result that end()
+            # collected, if any.
+            result, self._command_result = self._command_result, None
+            return result
         verif_hooks.emit('recv', name=self.name)
         return self.parent.recv()
 
@@ -843,10 +848,12 @@ class ParallelProcess(Process):
         # Only end once.
         if self._ended:
             return
-        if self._pending_command:
-            # collect (and drop) the result of a command that is still
-            # in flight, e.g. when the process is deleted mid-update
-            self.get_command_result()
+        # Collect the result of a command that is still in flight, e.g.
+        # when the process is deleted mid-update. Whoever waits for it
+        # can still fetch it with get_command_result().
+        collected = bool(self._pending_command)
+        if collected:
+            self._command_result = self.get_command_result()
         self.send_command('end')
         if self.profile:
             stats = pstats.Stats()
@@ -856,6 +863,8 @@ class ParallelProcess(Process):
         self.multiprocess.join()
         self.multiprocess.close()
         self._ended = True
+        # After the end, only a collected result is left to be fetched.
+        self._pending_command = ('end', None, None) if collected else None
         verif_hooks.emit('end_done', name=self.name)
 
     def __del__(self) -> None:
